@@ -288,10 +288,12 @@ class Program:
                     if t.id == "__all__":
                         mi.all_names = self._literal_all(node.value)
                 elif isinstance(t, ast.Tuple):
-                    # a = b = ..., or tuple unpack: record names as opaque
-                    for e in t.elts:
+                    # tuple unpack: element by element when the value is a tuple display of the same length, else opaque
+                    vals = node.value.elts if isinstance(node.value, (ast.Tuple, ast.List)) and len(node.value.elts) == len(t.elts) \
+                        and not any(isinstance(x, ast.Starred) for x in list(t.elts) + list(node.value.elts)) else None
+                    for k_, e in enumerate(t.elts):
                         if isinstance(e, ast.Name):
-                            mi.assigns[e.id] = None
+                            mi.assigns[e.id] = vals[k_] if vals is not None else None
         elif isinstance(node, ast.Try):
             for sub in node.body + node.orelse + node.finalbody:
                 self._index_stmt(mi, sub)
